@@ -331,7 +331,9 @@ class RegexConstraint(Constraint):
         """Compile regex pattern once."""
         try:
             self._compiled = re.compile(self.pattern)
-        except re.error as e:
+        except (re.error, OverflowError, RecursionError) as e:
+            # re.compile reports a repetition count that is too large as OverflowError and
+            # a pattern nested too deeply as RecursionError: both are invalid patterns too
             raise ValueError(f"Invalid regex pattern '{self.pattern}': {e}") from e
 
     def evaluate(self, value: Any, path: str = "") -> ValidationResult:
